@@ -25,13 +25,18 @@ def expand(desc):
     """Model-level network: exec steps become deploy + sched + exec."""
     steps = []
     has_exec = any(s["kind"] == "exec" for s in desc["steps"])
+    # a binding with several targets (desc["targets"] = k): one DeployStep and one connector port per target, every
+    # ScheduleStep reads all of them
+    conns = ["__conn__"] + ["__conn%d__" % i for i in range(2, int(desc.get("targets", 1)) + 1)]
     if has_exec:
         steps.append({"name": "dep", "kind": "deploy", "ins": [], "outs": ["__conn__"], "real": "/__deploy__/__LOCAL__"})
+        for i, c in enumerate(conns[1:], start=2):
+            steps.append({"name": "dep%d" % i, "kind": "deploy", "ins": [], "outs": [c], "real": "/__deploy__/L%d" % i})
     for s in desc["steps"]:
         if s["kind"] == "exec":
             jp = s["name"] + ".job"
-            steps.append({"name": s["name"] + ".sched", "kind": "sched", "ins": list(s["ins"]) + ["__conn__"], "outs": [jp],
-                          "real": "/" + s["name"] + "/__schedule__"})
+            steps.append({"name": s["name"] + ".sched", "kind": "sched", "ins": list(s["ins"]) + conns, "outs": [jp],
+                          "nconn": len(conns), "real": "/" + s["name"] + "/__schedule__"})
             steps.append({"name": s["name"], "kind": "exec", "ins": list(s["ins"]) + [jp], "outs": list(s["outs"]),
                           "real": "/" + s["name"]})
         else:
@@ -81,6 +86,7 @@ def net_record(desc):
         ("steps", steps), ("ports", ports),
         ("kind", _fnv(steps, [(s["name"], tla(s["kind"])) for s in m["steps"]])),
         ("ins", _fnv(steps, [(s["name"], tla(s["ins"])) for s in m["steps"]])),
+        ("nconn", _fnv(steps, [(s["name"], str(s.get("nconn", 0))) for s in m["steps"]])),
         ("outs", _fnv(steps, [(s["name"], tla(s["outs"])) for s in m["steps"]])),
         ("inputs", _fnv(ports, inp)),
         ("depth", _fnv(steps, [(x["name"], str(x.get("depth", 1))) for x in m["steps"]])),
